@@ -2185,6 +2185,8 @@ impl Parser {
                 ));
             }
 
+            // ... and, like the name of the class, it cannot be rebound
+            ident.mark_const();
             ident.link_force_no_inherit(input.user_data(), real_ty.clone())?;
         }
 
